@@ -548,9 +548,9 @@ fn build_sched(threads: usize) -> Result<String, String> {
     Ok(format!("{}/release/c15sched", target))
 }
 
-fn run_sched(bin: &str, mode: &str, hid: Hid, w: u32, h: u32, seed: &str, msg: &str, schedule: Option<&str>) -> Result<(Value, String), String> {
+fn run_sched(bin: &str, mode: &str, hid: Hid, w: &str, h: &str, seed: &str, msg: &str, schedule: Option<&str>) -> Result<(Value, String), String> {
     let mut cmd = Command::new(bin);
-    cmd.args([mode, hid.name(), &w.to_string(), &h.to_string(), seed, msg]);
+    cmd.args([mode, hid.name(), w, h, seed, msg]);
     if let Some(s) = schedule {
         cmd.arg(s);
     }
@@ -566,7 +566,7 @@ fn factorial(n: usize) -> u64 {
 }
 
 /// schedule exploration of one configuration; returns (schedules, violations)
-fn sched_case(threads: usize, hid: Hid, w: u32, h: u32, seed: &str, msg: &str) -> Result<(u64, u64, Vec<(Viol, Value)>), String> {
+fn sched_case(threads: usize, hid: Hid, w: &str, h: &str, seed: &str, msg: &str) -> Result<(u64, u64, Vec<(Viol, Value)>), String> {
     let bin = build_sched(threads)?;
     let (r, stderr) = run_sched(&bin, "explore", hid, w, h, seed, msg, None)?;
     let mut v = vec![];
@@ -595,7 +595,9 @@ pub fn c15_replay(case: &Value) -> Result<Vec<Viol>, String> {
         "c15sched" => {
             let threads = case["threads"].as_u64().unwrap_or(2) as usize;
             let hid: Hid = serde_json::from_value(case["hid"].clone()).map_err(|e| e.to_string())?;
-            let (w, h) = (case["w"].as_u64().unwrap_or(4) as u32, case["h"].as_u64().unwrap_or(5) as u32);
+            let w = case["w"].as_str().map(|x| x.to_string()).unwrap_or_else(|| case["w"].as_u64().unwrap_or(4).to_string());
+            let h = case["h"].as_str().map(|x| x.to_string()).unwrap_or_else(|| case["h"].as_u64().unwrap_or(5).to_string());
+            let (w, h) = (w.as_str(), h.as_str());
             let (seed, msg) = (case["seed"].as_str().unwrap_or(""), case["msg"].as_str().unwrap_or(""));
             match case["schedule"].as_str() {
                 Some(sch) => {
@@ -679,7 +681,12 @@ pub fn run_c15(ctx: &Ctx) -> (&'static str, Map<String, Value>) {
     }
     // ---- schedules: shuttle DFS over one complete sign_mut call
     let ts: Vec<usize> = if th { vec![2, 3, 4] } else { vec![2, 3] };
-    let cfgs: Vec<(Hid, u32, u32)> = vec![(Hid::S32, 4, 5), (Hid::S16, 4, 5), (Hid::K24, 1, 5)];
+    // single-level trees for three hash/W combinations, plus a two-level key (the upper-level
+    // signature is made by the ordinary signer, the bottom one by the randomizer search)
+    let mut cfgs: Vec<(Hid, &str, &str)> = vec![(Hid::S32, "4", "5"), (Hid::S16, "4", "5"), (Hid::K24, "1", "5"), (Hid::S24, "8,2", "2,2")];
+    if th {
+        cfgs.extend([(Hid::K16, "4,4", "2,5"), (Hid::S32, "2", "5"), (Hid::K32, "8", "2")]);
+    }
     let sched_results: Vec<(usize, Vec<Result<(u64, u64, Vec<(Viol, Value)>), String>>)> = ts
         .par_iter()
         .map(|t| {
@@ -690,7 +697,7 @@ pub fn run_c15(ctx: &Ctx) -> (&'static str, Map<String, Value>) {
                     let seed = hex::encode(det_bytes(ctx.seed, &format!("c15s:{}", hid.name()), n));
                     let mut msg = det_bytes(ctx.seed, "c15smsg", 21);
                     msg.extend(std::iter::repeat(0u8).take(n));
-                    sched_case(*t, *hid, *w, *h, &seed, &hex::encode(msg))
+                    sched_case(*t, *hid, w, h, &seed, &hex::encode(msg))
                 })
                 .collect();
             (*t, rs)
@@ -717,7 +724,7 @@ pub fn run_c15(ctx: &Ctx) -> (&'static str, Map<String, Value>) {
                 }
             }
         }
-        per_t.insert(format!("T={}", t), json!({"schedules_over_3_configurations": total_t, "distinct_delivery_orders": orders_t}));
+        per_t.insert(format!("T={}", t), json!({"schedules_over_all_configurations": total_t, "distinct_delivery_orders": orders_t}));
     }
     ctx.sample(|| json!({"schedule_exploration": "shuttle DfsScheduler(None,false) over hbs_lms::sign_mut on [h5] for S32/W4, S16/W4, K24/W1", "per_thread_count": per_t}));
     ctx.assume("schedule exploration owns scope/spawn, channel send/receive and OsRng through the cfg-guarded shim (verif_hooks::sched); T >= 5 is out of bound for DFS (10 / 280 / 15400 schedules for T = 2 / 3 / 4) and is covered only by the free-running real-thread builds");
